@@ -11,7 +11,7 @@ from ..sym import Env, _sym
 from .. import variants
 from . import C15
 
-TECHNIQUE = "emptiness typing of the values of filtering producers (per nesting level) with a guard-dominance rule for constant-index subscripts, window-bound rule on map_block_trial_ranges, provenance rule for divisors (caller-supplied counts and lengths of filtered collections need a non-zero guard), error-gate rule on every sampler, key-coverage facts of the combinatoric candidate"
+TECHNIQUE = "emptiness typing of the values of filtering producers (per nesting level) with a guard-dominance rule for constant-index subscripts, window-bound rule on map_block_trial_ranges, provenance rule for divisors (caller-supplied counts and lengths of filtered collections need a non-zero guard), error-gate rule on every sampler, key-coverage facts of the combinatoric candidate, dependency-order rule for derived-factor fill loops, remove-once rule, key-domain inclusion in a partition algebra evaluated from the DesignPartitions getters"
 EXPLANATION = """
 Decides the discipline that keeps IndexError / ZeroDivisionError / KeyError / AssertionError out of synthesis on the
 paths where the repository's own code shows them to be possible: (emptiness) the values returned by the filtering
@@ -28,7 +28,14 @@ others are recorded with the construct that makes them positive; (gate) every sa
 and returns empty before it builds a formula or an enumerator, so that designs with recorded fatal errors never
 reach code that assumes a consistent design; (keys) the combinatoric candidate carries every factor in every
 segment: the preamble is filled with all derived factors, the rounds with the uncrossed and complex ones, and
-__combine_round concatenates by the keys of the round.
+__combine_round concatenates by the keys of the round; (fill order) every loop that fills derived factors into a
+candidate while evaluating their predicates on that candidate visits the factors in dependency order (a list sorted
+by _get_depth(), directly or through an attribute sorted once and never reordered); (remove once) a list.remove(v)
+inside a loop that rebinds neither the list nor the value is followed by leaving that loop or guarded by a membership
+test, so that it cannot run twice with the same operands (ValueError); (key domain) the factor-keyed candidate
+{**crossing instance, **source combination} of the combinatoric counter is read only with factors of partitions that
+are included in the partitions it was built over, decided in a partition algebra evaluated from the DesignPartitions
+getters' own source (cells over: in the main crossing / complex window / derived / source).
 """
 NOT_DECIDED = "KeyError / IndexError from data-dependent indices (layout arithmetic, user level names), exceptions raised inside user predicates, solver processes that fail, and designs that the constructors should have refused."
 
@@ -444,6 +451,332 @@ def rule_keys(ctx):
               "the preamble list is every derived factor of the design", "_sorted_derived_factors is no longer get_derived_factors()")
 
 
+def _is_depth_key(e) -> bool:
+    """lambda f: f._get_depth()  (or an attrgetter-free equivalent: a lambda whose body calls _get_depth on its parameter)"""
+    if isinstance(e, ast.Lambda) and len(e.args.args) == 1 and isinstance(e.body, ast.Call) and isinstance(e.body.func, ast.Attribute):
+        return e.body.func.attr == "_get_depth" and isinstance(e.body.func.value, ast.Name) and e.body.func.value.id == e.args.args[0].arg
+    return False
+
+
+def _depth_sorted_expr(e) -> bool:
+    return isinstance(e, ast.Call) and dotted(e.func) == "sorted" and any(k.arg == "key" and _is_depth_key(k.value) for k in e.keywords) and \
+        not any(k.arg == "reverse" for k in e.keywords)
+
+
+def _attr_depth_sorted(cls, attr: str):
+    """self.<attr> is sorted by depth once, after its last assignment, and never reordered: returns (ok, reason)"""
+    writes, sorts, others = [], [], []
+    for name, m in cls.methods.items():
+        for st in statements(m.node):
+            if isinstance(st, (ast.Assign, ast.AugAssign, ast.AnnAssign)):
+                tg = st.targets if isinstance(st, ast.Assign) else [st.target]
+                if any(dotted(t) == "self." + attr for t in tg):
+                    writes.append((m, st))
+            if isinstance(st, ast.Expr) and isinstance(st.value, ast.Call) and isinstance(st.value.func, ast.Attribute) and \
+                    dotted(st.value.func.value) == "self." + attr:
+                a = st.value.func.attr
+                if a == "sort" and any(k.arg == "key" and _is_depth_key(k.value) for k in st.value.keywords) and not any(k.arg == "reverse" for k in st.value.keywords):
+                    sorts.append((m, st))
+                elif a in ("sort", "reverse", "append", "extend", "insert", "pop", "remove", "clear"):
+                    others.append((m, st))
+    if not sorts:
+        return False, "self.%s is never sorted by _get_depth()" % attr
+    if others:
+        return False, "self.%s is reordered / extended by `%s`" % (attr, ast.unparse(others[0][1]))
+    sm, sst = sorts[-1]
+    for m, st in writes:
+        if m is not sm or st.lineno > sst.lineno:
+            return False, "self.%s is assigned after its depth sort (`%s`)" % (attr, ast.unparse(st)[:80])
+    # a local alias sorted in place (x = ...; self.attr = x; self.attr.sort(...)) is the same list: fine
+    return True, ""
+
+
+def rule_fill_order(ctx):
+    """Values of derived factors are computed from the values already present in the candidate: every loop that fills
+    derived factors into a dictionary, evaluating their predicates on that dictionary, must visit the factors in
+    dependency order (by _get_depth(), the repository's own ordering device) -- otherwise a factor that depends on a factor
+    visited later is a KeyError for an accepted design."""
+    R = "C08.fill-order"
+    repo = ctx.repo
+    sites = []
+    for f in repo.all_functions:
+        if isinstance(f.node, ast.Lambda) or f.module.short.split(".")[-1] in OUT_OF_SCOPE_MODULES or "tests" in f.module.relpath:
+            continue
+        for lp in [x for x in statements(f.node) if isinstance(x, ast.For) and isinstance(x.target, ast.Name)]:
+            v = lp.target.id
+            inner = [x for b in lp.body for x in ast.walk(b)]
+            evaluates = any(isinstance(x, ast.Call) and isinstance(x.func, ast.Attribute) and x.func.attr in ("select_level_for_sample", "predicate") for x in inner)
+            stores = [x for x in inner if isinstance(x, ast.Assign) and isinstance(x.targets[0], ast.Subscript) and
+                      dotted(x.targets[0].slice) in (v, v + ".name")]
+            of_factor = any(isinstance(x, ast.Attribute) and isinstance(x.value, ast.Name) and x.value.id == v and x.attr in ("levels", "select_level_for_sample") for x in inner)
+            if evaluates and stores and of_factor:
+                # nested function bodies belong to their own FunctionInfo
+                if any(lp in list(ast.walk(g.node)) for g in f.nested.values()):
+                    continue
+                sites.append((f, lp, ast.unparse(stores[0].targets[0].value)))
+    ctx.require(len(sites) >= 2, "only %d derived-factor fill loops found (2 confirmed by hand: _fill_in_derived, add_implied_levels)" % len(sites))
+    cg = None
+    for f, lp, store in sites:
+        it = lp.iter
+        where = "%s: for %s in %s" % (f.qual, lp.target.id, ast.unparse(it))
+        if _depth_sorted_expr(it):
+            ctx.ok(R, f, where, "the loop iterates sorted(..., key=depth)")
+            continue
+        if isinstance(it, ast.Name):
+            local = [x for x in statements(f.node) if isinstance(x, ast.Assign) and dotted(x.targets[0]) == it.id]
+            if local and all(_depth_sorted_expr(x.value) for x in local):
+                ctx.ok(R, f, where, "the loop iterates a local list sorted by depth")
+                continue
+            if it.id in f.params and not local:
+                idx = f.params.index(it.id) - (1 if f.cls is not None and not f.is_static else 0)
+                callers = []
+                for g in repo.all_functions:
+                    for c in ast.walk(g.node) if not isinstance(g.node, ast.Lambda) else []:
+                        if isinstance(c, ast.Call) and call_attr(c) == f.name and g is not f:
+                            if any(c in list(ast.walk(h.node)) for h in g.nested.values()):
+                                continue
+                            callers.append((g, c))
+                ctx.require(callers, "%s: no caller found for the factor-list parameter" % f.fq)
+                for g, c in callers:
+                    arg = c.args[idx] if idx < len(c.args) else next((k.value for k in c.keywords if k.arg == it.id), None)
+                    d = dotted(arg) if arg is not None else None
+                    if d and d.startswith("self.") and g.cls is not None:
+                        ok, why = _attr_depth_sorted(g.cls, d[5:])
+                    elif arg is not None and _depth_sorted_expr(arg):
+                        ok, why = True, ""
+                    else:
+                        ok, why = False, "argument `%s` is not a depth-sorted list" % (ast.unparse(arg) if arg is not None else "?")
+                    ctx.check(ok, R, g, "%s(%s) from %s" % (f.name, d or "?", g.qual), "the factor list handed to %s is sorted by dependency depth" % f.name,
+                              "%s fills derived factors in the order of `%s`, and %s: a derived factor that depends on a later one is read from `%s` before it is filled (KeyError)" % (
+                                  f.qual, ast.unparse(arg) if arg is not None else "?", why, store), c)
+                continue
+        ctx.bad(R, f, where, "%s fills derived factors into `%s` in the order of `%s`, which is not ordered by dependency depth (_get_depth): a derived factor listed "
+                "before a derived factor it depends on is evaluated before its argument is present (KeyError); the sibling fill loop(s) iterate depth-sorted lists" % (
+                    f.qual, store, ast.unparse(it)), lp)
+
+
+def _bound_in(loop, names) -> bool:
+    """is any of `names` (re)bound by the loop itself: its target, or an assignment / for-target / with-target in its body"""
+    tnames = {n.id for n in ast.walk(loop.target) if isinstance(n, ast.Name)} if isinstance(loop, ast.For) else set()
+    for b in loop.body:
+        for x in ast.walk(b):
+            if isinstance(x, (ast.Assign, ast.AugAssign, ast.AnnAssign)):
+                for t in (x.targets if isinstance(x, ast.Assign) else [x.target]):
+                    tnames |= {n.id for n in ast.walk(t) if isinstance(n, ast.Name) and isinstance(n.ctx, ast.Store)}
+            elif isinstance(x, ast.For):
+                tnames |= {n.id for n in ast.walk(x.target) if isinstance(n, ast.Name)}
+    return bool(tnames & set(names))
+
+
+def rule_remove_once(ctx, reach):
+    """list.remove(v) raises ValueError when v is not (or no longer) in the list: a removal inside a loop that rebinds
+    neither the list nor the value can run a second time with the same operands, unless the loop is left right after the
+    removal or the removal is guarded by a membership test."""
+    from ..cfg import enclosing_loops
+    R = "C08.remove-once"
+    n = 0
+    for f in ctx.repo.all_functions:
+        if isinstance(f.node, ast.Lambda) or f.module.short.split(".")[-1] in OUT_OF_SCOPE_MODULES or "tests" in f.module.relpath:
+            continue
+        loops = None
+        for st in statements(f.node):
+            if not (isinstance(st, ast.Expr) and isinstance(st.value, ast.Call) and isinstance(st.value.func, ast.Attribute) and st.value.func.attr == "remove" and len(st.value.args) == 1):
+                continue
+            if any(st in list(ast.walk(g.node)) for g in f.nested.values()):
+                continue
+            lst, val = st.value.func.value, st.value.args[0]
+            names = {x.id for x in ast.walk(lst) if isinstance(x, ast.Name)} | {x.id for x in ast.walk(val) if isinstance(x, ast.Name)}
+            loops = loops if loops is not None else enclosing_loops(f.node)
+            n += 1
+            where = "%s.remove(%s)" % (ast.unparse(lst), ast.unparse(val))
+            repeat = [lp for lp in loops.get(id(st), []) if not _bound_in(lp, names)]
+            if not repeat:
+                ctx.ok(R, f, where, "every enclosing loop rebinds the list or the value")
+                continue
+            lp = repeat[-1]
+            # the removal's own block (or the if-block that holds it) leaves that loop right away, or is guarded by `val in lst`
+            F = Facts(f)
+            guarded = any(("(%s in %s)" % (ast.unparse(val), ast.unparse(lst))) in c.replace("contains", "in") for c in F.conds(st)) or \
+                any(isinstance(t, ast.Compare) and isinstance(t.ops[0], ast.In) and ast.unparse(t.left) == ast.unparse(val) and ast.unparse(t.comparators[0]) == ast.unparse(lst)
+                    for t, pol in guard_stack(f.node).get(id(st), []) if pol)
+            # statement following the removal in its block
+            leaves = False
+            blk, i, _holder = _blocks_of(f.node)[id(st)]
+            nxt = blk[i + 1] if i + 1 < len(blk) else None
+            inner_most = loops.get(id(st), [])[-1]
+            leaves = isinstance(nxt, (ast.Return, ast.Raise)) or (isinstance(nxt, ast.Break) and inner_most is lp)
+            ctx.check(guarded or leaves, R, f, where, "the removal cannot repeat: guarded by a membership test or followed by leaving the loop",
+                      "%s runs inside `for %s in %s`, which rebinds neither the list nor the value, and the loop goes on after the removal: a second "
+                      "iteration that reaches it raises ValueError (x not in list)" % (where, ast.unparse(lp.target) if isinstance(lp, ast.For) else "while", ast.unparse(lp.iter)[:70] if isinstance(lp, ast.For) else ""), st)
+    ctx.require(n >= 1, "no list.remove site found (1 confirmed by hand in UCSolutionEnumerator.__count_solutions)")
+
+
+def rule_key_domain(ctx):
+    """Dictionaries keyed by factors are built over one partition of the design (DesignPartitions getter) and read with
+    factors of another: every read M[k] of a merged candidate {**a, **b} must use a key whose partition is included in the
+    union of the partitions the parts were built over (plus the keys stored into M earlier in the same loop nest).
+    Inclusion is decided in the partition algebra of sa/partition.py, from the getters' own source."""
+    from ..partition import Partitions, atom, describe
+    R = "C08.key-domain"
+    repo = ctx.repo
+    P = Partitions(repo.cls("design_partition:DesignPartitions"))
+    P.getter("get_source_factors")
+    ctx.require(P.source_of is not None, "DesignPartitions.get_source_factors: source shape not recognised")
+    enum = repo.cls("random:UCSolutionEnumerator")
+
+    def getter_of(e):
+        """self._partitions.get_X()  (possibly inside sorted(..) / list(..))  ->  'get_X'"""
+        while isinstance(e, ast.Call) and dotted(e.func) in ("sorted", "list", "tuple", "reversed") and e.args:
+            e = e.args[0]
+        if isinstance(e, ast.Call) and isinstance(e.func, ast.Attribute) and dotted(e.func.value) == "self._partitions" and not e.args:
+            return e.func.attr
+        return None
+
+    # dictionary producers: {V[i]: level for ...} with V = self._partitions.get_X()
+    producers = {}
+    for name, m in enum.methods.items():
+        for dc in [x for x in ast.walk(m.node) if isinstance(x, ast.DictComp)]:
+            k = dc.key
+            if isinstance(k, ast.Subscript) and isinstance(k.value, ast.Name):
+                defs = [x for x in statements(m.node) if isinstance(x, ast.Assign) and dotted(x.targets[0]) == k.value.id]
+                g = getter_of(defs[0].value) if len(defs) == 1 else None
+                if g is not None:
+                    producers[name] = g
+    ctx.require(len(producers) >= 2, "UCSolutionEnumerator: factor-keyed dictionary producers not found (2 confirmed by hand)")
+    attrs = {}
+    for m in enum.methods.values():
+        for st in statements(m.node):
+            if isinstance(st, ast.Assign) and dotted(st.targets[0]) and dotted(st.targets[0]).startswith("self.") and isinstance(st.value, ast.Call) and \
+                    isinstance(st.value.func, ast.Attribute) and dotted(st.value.func.value) == "self":
+                callee = st.value.func.attr
+                hit = [p for p in producers if p == callee or p.lstrip("_") == callee.lstrip("_")]
+                if hit:
+                    attrs[dotted(st.targets[0])] = producers[hit[0]]
+    n_reads = 0
+    for m in enum.methods.values():
+        if isinstance(m.node, ast.Lambda):
+            continue
+        localdefs = {}
+        for st in statements(m.node):
+            if isinstance(st, ast.Assign) and len(st.targets) == 1 and isinstance(st.targets[0], ast.Name):
+                localdefs.setdefault(st.targets[0].id, []).append(st.value)
+        loops = {}       # id(For) -> (variable, 'dict' | 'factor', getter)
+        for st in statements(m.node):
+            if isinstance(st, ast.For):
+                it, tg = st.iter, st.target
+                if isinstance(it, ast.Call) and dotted(it.func) == "enumerate" and it.args and isinstance(tg, ast.Tuple) and len(tg.elts) == 2:
+                    it, tg = it.args[0], tg.elts[1]
+                if not isinstance(tg, ast.Name):
+                    continue
+                if isinstance(it, ast.Name) and len(localdefs.get(it.id, [])) == 1:
+                    it = localdefs[it.id][0]
+                if dotted(it) in attrs:
+                    loops[id(st)] = (tg.id, "dict", attrs[dotted(it)])
+                elif getter_of(it):
+                    loops[id(st)] = (tg.id, "factor", getter_of(it))
+        fors = [x for x in ast.walk(m.node) if isinstance(x, ast.For)]
+        comps = [x for x in ast.walk(m.node) if isinstance(x, (ast.ListComp, ast.GeneratorExp, ast.SetComp, ast.DictComp))]
+
+        def inside(node, holder_nodes):
+            return any(x is node for h in holder_nodes for x in ast.walk(h))
+
+        def resolve(name, node):
+            """innermost binder of `name` around `node`: ('comp', iter) | ('dict'|'factor', getter) | None"""
+            best = None
+            for lp in fors:          # breadth-first: later hits are deeper
+                tn = {x.id for x in ast.walk(lp.target) if isinstance(x, ast.Name)}
+                if name in tn and inside(node, lp.body):
+                    best = ("loop", lp)
+            for c in comps:
+                for g in c.generators:
+                    if isinstance(g.target, ast.Name) and g.target.id == name and inside(node, [c]):
+                        best = ("comp", g.iter)
+            if best is None:
+                return None
+            if best[0] == "comp":
+                return best
+            info = loops.get(id(best[1]))
+            if info is None or info[0] != name:
+                return ("other-loop", best[1])
+            return (info[1], info[2])
+
+        def owner_of(e, node, depth=0):
+            """the factor loop variable's getter that owns window expression e (x.window, l.window with l in x.levels, M[x].window, locals)"""
+            if depth > 5:
+                return None
+            if isinstance(e, ast.Name):
+                r = resolve(e.id, node)
+                if r is not None and r[0] == "factor":
+                    return r[1]
+                if r is not None and r[0] == "other-loop" and isinstance(r[1].iter, ast.Attribute) and r[1].iter.attr == "levels":
+                    return owner_of(r[1].iter.value, r[1], depth + 1)
+                if r is None and len(localdefs.get(e.id, [])) == 1:
+                    return owner_of(localdefs[e.id][0], node, depth + 1)
+                return None
+            if isinstance(e, ast.Attribute) and e.attr in ("window", "first_level"):
+                return owner_of(e.value, node, depth + 1)
+            if isinstance(e, ast.Subscript) and isinstance(e.value, ast.Name) and e.value.id in merged_names:
+                return owner_of(e.slice, node, depth + 1)
+            if isinstance(e, ast.Subscript) and isinstance(e.value, ast.Attribute) and e.value.attr == "levels":
+                return owner_of(e.value.value, node, depth + 1)
+            return None
+
+        merges = [st for st in statements(m.node) if isinstance(st, ast.Assign) and isinstance(st.targets[0], ast.Name) and isinstance(st.value, ast.Dict) and
+                  st.value.keys and all(k is None for k in st.value.keys)]
+        merged_names = {mg.targets[0].id for mg in merges}
+        for mg in merges:
+            M = mg.targets[0].id
+            parts = [resolve(dotted(v), mg) if dotted(v) else None for v in mg.value.values]
+            if not all(p_ is not None and p_[0] == "dict" for p_ in parts):
+                continue
+            domain = frozenset()
+            for p_ in parts:
+                domain = domain | P.getter(p_[1])
+            built = " | ".join(p_[1] for p_ in parts)
+            # stores M[k] = ..  with k a factor loop variable: extend the domain from that line on
+            stores = []
+            for st in statements(m.node):
+                if isinstance(st, ast.Assign) and isinstance(st.targets[0], ast.Subscript) and dotted(st.targets[0].value) == M and isinstance(st.targets[0].slice, ast.Name):
+                    r = resolve(st.targets[0].slice.id, st)
+                    if r is not None and r[0] == "factor":
+                        holder = [lp for lp in fors if id(lp) in loops and loops[id(lp)][0] == st.targets[0].slice.id and inside(st, lp.body)]
+                        stores.append((st.lineno, holder[-1] if holder else None, r[1]))
+            for node in ast.walk(m.node):
+                if not (isinstance(node, ast.Subscript) and isinstance(node.ctx, ast.Load) and dotted(node.value) == M and isinstance(node.slice, ast.Name)):
+                    continue
+                if node.lineno < mg.lineno:
+                    continue
+                k = node.slice.id
+                dom = domain
+                also = []
+                for ln, holder, g in stores:
+                    # a store earlier in the text, or the store of the very loop the read is in (its order is the fill-order rule's matter)
+                    if ln <= node.lineno or (holder is not None and inside(node, holder.body)):
+                        dom = dom | P.getter(g)
+                        also.append(g)
+                r = resolve(k, node)
+                if r is not None and r[0] == "factor":
+                    keys, what = P.getter(r[1]), r[1]
+                elif r is not None and r[0] in ("comp", "other-loop"):
+                    it = r[1] if r[0] == "comp" else r[1].iter
+                    g = owner_of(it.value, node) if isinstance(it, ast.Attribute) and it.attr == "factors" else None
+                    ctx.require(g is not None, "%s: key `%s` of %s[..] (bound over `%s`) not resolved to a partition" % (m.fq, k, M, ast.unparse(it)[:60]))
+                    ctx.check(P.getter(g) <= P.closure, R, m, "window factors of %s are sources" % g,
+                              "every factor in %s has its window factors in get_source_factors (by that getter's own loop)" % g,
+                              "%s reads %s[%s] for the window factors of the factors in %s, but get_source_factors collects the window factors of %s%s only" % (
+                                  m.qual, M, k, g, P.source_of, " and of the derived sources it adds to its work list" if P.closure - P.getter(P.source_of) else ""), node)
+                    keys, what = atom("S"), "window factors of %s" % g
+                else:
+                    ctx.require(False, "%s: key `%s` of %s[..] not resolved to a partition" % (m.fq, k, M))
+                n_reads += 1
+                missing = sorted(keys - dom)
+                ctx.check(not missing, R, m, "%s[%s] with %s in %s" % (M, k, k, what),
+                          "keys (%s) are included in the dictionary's domain (%s)" % (what, " | ".join([built] + also)),
+                          "%s reads %s[%s] for %s in %s, but %s is built over %s: a factor that is %s is not a key (KeyError for a design with such a factor)" % (
+                              m.qual, M, k, k, what, M, " | ".join([built] + also), "; or ".join(describe(c) for c in missing)), node)
+    ctx.require(n_reads >= 2, "only %d factor-keyed reads of merged candidates found (2 confirmed by hand in __count_solutions)" % n_reads)
+
+
 def check(ctx):
     repo = ctx.repo
     cg = CallGraph(repo)
@@ -456,6 +789,9 @@ def check(ctx):
     rule_divisors(ctx, reach)
     n = C15.gate_rule(ctx, "C08.gate")
     rule_keys(ctx)
+    rule_fill_order(ctx)
+    rule_remove_once(ctx, reach)
+    rule_key_domain(ctx)
 
     mod = sys.modules[__name__]
     C = "sweetpea/_internal/constraint.py"
@@ -467,8 +803,25 @@ def check(ctx):
             lambda s: variants.in_function(s, "sweetpea/_internal/cross_block.py", "MultiCrossBlockRepeat.map_block_trial_ranges", "proc(start, min(end, num_trials))", "proc(start, end)"), "C08.window-bound")
     control(ctx, mod, "average over the requested count, unguarded",
             lambda s: variants.in_function(s, "sweetpea/_internal/sampling_strategy/random.py", "RandomGen.__sample", "total_rejected / sample_count if sample_count > 0 else 0", "total_rejected / sample_count"), "C08.divisor")
+    control(ctx, mod, "implied factors filled in design order",
+            lambda s: variants.in_function(s, "sweetpea/_internal/block.py", "Block.add_implied_levels",
+                                           "for f in sorted(self.design, key=lambda f: f._get_depth()):", "for f in self.design:"), "C08.fill-order")
+    control(ctx, mod, "the enumerator's derived list is re-sorted by name after the depth sort",
+            lambda s: variants.in_function(s, "sweetpea/_internal/sampling_strategy/random.py", "UCSolutionEnumerator.__init__",
+                                           "        self._sorted_derived_factors.sort(key=lambda f: f._get_depth())\n",
+                                           "        self._sorted_derived_factors.sort(key=lambda f: f._get_depth())\n        self._sorted_derived_factors.sort(key=lambda f: f.name)\n"), "C08.fill-order")
+    control(ctx, mod, "source combination removed once per rejecting factor",
+            lambda s: variants.in_function(s, "sweetpea/_internal/sampling_strategy/random.py", "UCSolutionEnumerator.__count_solutions",
+                                           "                            sc_indices.remove(sc_idx)\n                            break\n",
+                                           "                            sc_indices.remove(sc_idx)\n"), "C08.remove-once")
+    control(ctx, mod, "derived sources are not filled into the merged candidate",
+            lambda s: variants.in_function(s, "sweetpea/_internal/sampling_strategy/random.py", "UCSolutionEnumerator.__count_solutions",
+                                           "merged_levels[df] = l", "pass"), "C08.key-domain")
     ctx.min_instances("C08.emptiness", 10)
     ctx.min_instances("C08.window-bound", 4)
     ctx.min_instances("C08.divisor", 25)
     ctx.min_instances("C08.gate", 5)
     ctx.min_instances("C08.keys", 5)
+    ctx.min_instances("C08.fill-order", 3)
+    ctx.min_instances("C08.key-domain", 5)
+    ctx.min_instances("C08.remove-once", 1)
